@@ -53,6 +53,8 @@ def harnesses(tier, seed):
     hs = [
         h("c08_purge_step_n2", "purge from an arbitrary state: live ids unchanged, exactly the sub-cut-off tombstones removed/reported, old ops of the deleting node still refused", covers=3),
         h("c08_purge_step_n1", "same, single source", covers=3),
+        h("c08_cutoff_monotone_n2", "any operation (timely or not): no newest-seen stamp and no purge cut-off ever moves backwards; cut-off == spec(newest-seen)", covers=2),
+        h("c08_op_then_purge_n2", "an operation then a purge: only tombstones every source has seen the origin pass by > window are purged; live ids unchanged"),
         h("c08_readd_restores_n2", "purge then add_raw_tombstones(reported) restores every view"),
         h("c08_differential_k1_n2", "purging vs non-purging copy, one further timely op"),
     ]
